@@ -60,7 +60,7 @@ def run(ctx, rep):
     rep.guarded("R12-CONSTMAP", lambda: r_constmap(sh, rep))
     rep.rule("R12-PARAMSCOPE", "the schema generator binds the parameters of a nested type application in a copy of the caller's bindings", floor=1)
     rep.guarded("R12-PARAMSCOPE", lambda: r_paramscope(sh, rep))
-    rep.rule("R12-SITES", "three single-site clauses: the expect decoder skips a traversal only when *every* component is Data; each handler's schema definitions start from an empty table; the orphan-pair pruning records every dependent", floor=3)
+    rep.rule("R12-SITES", "five single-site clauses: @list validator parameters are cast; synthesised decoder binders have unwritable names; the expect decoder skips a traversal only when *every* component is Data; each handler's schema definitions start from an empty table; the orphan-pair pruning records every dependent", floor=5)
     rep.guarded("R12-SITES", lambda: r_sites12(sh, rep))
     rep.rule("R12-TOTAL", "no unreviewed panic site reachable from Parameter::validate", floor=2)
 
@@ -404,6 +404,18 @@ def r_sites12(sh, rep):
     takes = [i for i in g["sig"]["inputs"] if "Definitions" in (i.get("ty") or "")]
     fresh = [n for n in walk(g["body"]) if n["k"] == "Local" and n.get("init") is not None and sh.nsrc(VAL, n["init"]) == "Definitions::new()"]
     rep.check(not takes and len(fresh) == 1, "R12-SITES", "create_validator_blueprint#fresh-definitions-per-handler", sh.loc(VAL, g), "each handler must derive its schemas in a Definitions table created inside create_validator_blueprint (found %d parameter(s) of that type, %d fresh table(s)): a table shared between handlers has already had its Pair definitions rewritten when the next handler looks for `List<Pair>` maps" % (len(takes), len(fresh)))
+    # (d) the validator's parameters are cast from Data like every other value of their type: a `@list` type needs its
+    # unListData although it is a user type
+    cv = find_fn(sh.file(GB), "cast_validator_args")
+    rep.touched(GB, "cast_validator_args")
+    rep.check("DecoratorKind::List" in sh.nsrc(GB, cv["body"]) and "known_data_to_type(" in sh.nsrc(GB, cv["body"]), "R12-SITES", "cast_validator_args#@list-parameters-are-cast", sh.loc(GB, cv), "cast_validator_args decides from the UPLC type alone whether a parameter needs a cast: a parameter of an `@list` type (a user type represented as a list) stays Data, `blueprint apply` accepts a conforming value and the applied validator dies on its first field access")
+    # (e) binders the decoder synthesises next to user-named ones carry names a user cannot write
+    lits = []
+    for n in walk(f[0]["body"]):
+        if n["k"] == "Lit" and n.get("lk") == "str" and re.fullmatch(r"_*(then|otherwise)_delayed", n["v"]):
+            lits.append(n)
+    badn = sorted({n["v"] for n in lits if not n["v"].startswith("__")})
+    rep.check(bool(lits) and not badn, "R12-SITES", "expect_type_assign#synthesised-binders-are-unwritable", sh.loc(GEN, lits[0]) if lits else sh.loc(GEN, f[0]), "the hoisted decoder names its continuation parameters %s, which are legal field labels: a record with such a field rebinds the continuation and `expect` rejects every value of the type" % badn, sample={"names": sorted({n["v"] for n in lits})})
     h = find_method(sh.file(DEFS), "Definitions", "prune_orphan_pairs")
     rep.touched(DEFS, "Definitions::prune_orphan_pairs")
     ins = [n for n in walk(h["body"]) if n["k"] == "MethodCall" and n["m"] == "insert" and sh.nsrc(DEFS, n["recv"]) == "dependencies"]
